@@ -96,7 +96,7 @@ def run(ctx):
             meta.append(("code", grid, pos, res))
         # get_cmc through chunk coordinates, incl. off-lattice
         for _ in range(3):
-            pos = [rng.randrange(g) for g in grid]
+            pos = [rng.choice([rng.randrange(g), g - 1]) for g in grid]
             mins = [p * cs for p in pos]
             if cs > 1 and rng.random() < 0.4:
                 k = rng.randrange(3)
@@ -105,8 +105,15 @@ def run(ctx):
             else:
                 off = False
             coords = (mins[0], mins[0] + cs, mins[1], mins[1] + cs, mins[2], mins[2] + cs)
+            # chunk coordinates come out of NumPy arithmetic in real callers: any integer type that can hold them
+            # (the narrowest included: its width may be smaller than the identifier's) must give the same identifier
+            forms = [int] + [t for t in (np.int16, np.uint16, np.int32, np.uint32, np.int64)
+                             if max(coords) <= np.iinfo(t).max]
+            form = rng.choice(forms[:3]) if rng.random() < 0.7 else rng.choice(forms)
+            ctx.hist("getcmc_coordinate_type", form.__name__)
+            call_coords = tuple(form(c) for c in coords)
             try:
-                res = ("ok", int(vs.get_cmc(coords)))
+                res = ("ok", int(vs.get_cmc(call_coords)))
             except ShardedIOError:
                 res = ("err",)
             except Exception as exc:  # noqa
@@ -117,7 +124,8 @@ def run(ctx):
                                                                             "coords": coords, "impl": res})
             if not off and res != ("ok", spec_code(grid, pos)[0]):
                 ctx.oracle_fail("get_cmc differs from the specification", {"sizes": sizes, "chunk": cs,
-                                                                           "coords": coords, "impl": res})
+                                                                           "coords": coords, "impl": res,
+                                                                           "coordinate_type": form.__name__})
             reqs.append(f"getcmc {core.ilist(sizes)} {core.ilist([cs] * 3)} {core.ilist(mins)}")
             meta.append(("cmc", sizes, mins, res))
     # ---- routing ------------------------------------------------------------------------------
